@@ -2132,9 +2132,11 @@ class Exists(QuantifiedConditional):
                 unsatisfied.append(self._bindings_of_the_other_variables_(val))
                 continue
             satisfied.append(self._bindings_of_the_other_variables_(val))
-            var_val = val[self.variable._id_]
-            if var_val.value not in seen_var_values:
-                seen_var_values.append(var_val.value)
+            # the condition may hold without looking at the variable (an or_ decided by its other side)
+            var_val = val.bindings.get(self.variable._id_)
+            if var_val is None or var_val.value not in seen_var_values:
+                if var_val is not None:
+                    seen_var_values.append(var_val.value)
                 self._is_false_ = False
                 yield OperationResult(val.bindings, False, self)
         # the bindings of the other variables under which the condition holds for no value of the variable
